@@ -139,9 +139,9 @@ def rule_a(ctx):
                     raise AnalysisError(f"{f.qname}: rotation vector outside the polynomial language: {e}")
                 ctx.ob(R, f.qname, f"{label} generator arguments are exact negations", ok, desc, ia[-1])
             elif isinstance(iv, ast.Call) and norm(iv.func) == "np.linalg.inv":
-                ctx.ob(R, f.qname, f"{label} inverse is np.linalg.inv of the forward matrix", norm(iv.args[0]) == norm(fv), f"{norm(fv)} / {norm(iv)}", ia[-1])
+                ctx.ob(R, f.qname, f"{label} inverse is np.linalg.inv of the forward matrix", norm(iv.args[0]) == norm(fv), f"{norm(fv)} / {norm(iv)}", ia[-1], evidence=False)
             elif norm(fv).startswith(("np.eye(", "np.diag(np.ones(")) and norm(fv) == norm(iv):
-                ctx.ob(R, f.qname, f"{label} both start at the identity", True, norm(fv), ia[-1])
+                ctx.ob(R, f.qname, f"{label} both start at the identity", True, norm(fv), ia[-1], evidence=False)
             elif not in_loop:
                 raise AnalysisError(f"{f.qname}: unrecognised forward/inverse pair `{norm(fv)[:60]}` / `{norm(iv)[:60]}`")
             # initial values for loops
@@ -154,7 +154,7 @@ def rule_a(ctx):
                         sib = l2[:l2.index(owner)]
                 init = {self_attr(s.targets[0]): norm(s.value) for s in (sib or []) if isinstance(s, ast.Assign) and self_attr(s.targets[0])}
                 ctx.ob(R, f.qname, f"{label} both accumulators start at the identity", init.get("rotation", "").startswith(("np.eye(", "np.diag(np.ones(")) and init.get("rotation") == init.get("rotation_inv"),
-                       str(init), owner)
+                       str(init), owner, evidence=False)
     ctx.floor(R, 7)
 
 
